@@ -69,6 +69,9 @@ def record(seed, n_traces, n_ev, kinds):
         real_keys = keys if unicode_keys else [k.decode("ascii") if as_text else k for k in keys]
         tr = {"id": ti, "kind": kind, "m": 1, "k": 1, "w": 2, "est": 1, "rate4": [0, 0, 0, 0], "mode": "min", "bs": 1, "ms": 1, "cap": 1, "fb": 8,
               "qmax": 1, "keys": [[ord(c) for c in k] if isinstance(k, str) else list(k) for k in keys], "ev": [], "text_keys": as_text}
+        disk = kind == "disk"       # the on-disk filter: same format, the FILE is the export (read back after every step)
+        if disk:
+            kind = tr["kind"] = "bloom"
         if kind in ("bloom", "cbloom", "ebf", "rbf"):
             while True:
                 est, fpr = rnd.choice(bloom_cfgs)
@@ -76,7 +79,10 @@ def record(seed, n_traces, n_ev, kinds):
                 if g and g[0] <= 80:
                     break
             tr.update(m=g[0], k=g[1], est=est, rate4=g[2])
-            if kind == "bloom":
+            if disk:
+                dpath = os.path.join(tmpdir, f"d{ti}.blm")
+                obj = P.BloomFilterOnDisk(dpath, est_elements=est, false_positive_rate=fpr)
+            elif kind == "bloom":
                 obj = P.BloomFilter(est_elements=est, false_positive_rate=fpr)
             elif kind == "cbloom":
                 obj = P.CountingBloomFilter(est_elements=est, false_positive_rate=fpr)
@@ -92,12 +98,14 @@ def record(seed, n_traces, n_ev, kinds):
             obj = cls(width=w, depth=d)
             tr.update(w=w, k=d, mode=mode)
         else:
-            cap, bs, fs = rnd.choice([(8, 2, 1), (16, 2, 2), (11, 3, 3), (32, 1, 2)])
+            cap, bs, fs = rnd.choice([(8, 2, 1), (16, 2, 2), (11, 3, 3), (32, 1, 2), (3, 2, 1), (2, 2, 2), (5, 1, 1)])
             cls = P.CuckooFilter if kind == "cko" else P.CountingCuckooFilter
             m1.random = script
             m2.random = script
             script.load([])
-            obj = cls(capacity=cap, bucket_size=bs, max_swaps=5, finger_size=fs, auto_expand=False)
+            # the small tables fill up: the rejected additions (no growth allowed, or a "growth" by factor 1 that cannot succeed) are part of the history
+            grow1 = cap <= 5 and rnd.random() < 0.5
+            obj = cls(capacity=cap, bucket_size=bs, max_swaps=5, finger_size=fs, auto_expand=grow1, expansion_rate=1 if grow1 else 2)
             tr.update(cap=cap, bs=bs, ms=5, fb=8 * fs)
         if kind in ("bloom", "cbloom") and not unicode_keys:
             # a key two of whose probes land on the same cell (hit once per occurrence by add AND by remove): searched for, since it is rare
@@ -148,12 +156,20 @@ def record(seed, n_traces, n_ev, kinds):
                         ev = {"op": "add", "k": i + 1, "a": 1 if force else 0}
                         obj.add(key, force)
                 else:
-                    script.load([])
+                    script.load([rnd.randint(0, 7) for _ in range(60)])
+                    if kind in ("cko", "ccko") and tr["cap"] <= 5:
+                        i = rnd.randrange(len(keys))       # small tables: all keys, so that they fill
+                        key = real_keys[i]
+                        ev = {"op": "add", "k": i + 1, "a": 1}
                     if rnd.random() < 0.3:
                         ev = {"op": "rem", "k": i + 1, "a": 0}
                         obj.remove(key)
                     else:
-                        obj.add(key)
+                        try:
+                            obj.add(key)
+                        except P.exceptions.CuckooFilterFullError:
+                            ev = {"op": "fail", "k": i + 1, "a": 0}      # rejected: whatever was tried, the export must be what it was
+                            script.draws = 0
                     if script.draws:  # an eviction happened: the deterministic reference writer does not cover it
                         break
             except Exception as exc:  # noqa
@@ -161,6 +177,9 @@ def record(seed, n_traces, n_ev, kinds):
                 tr["ev"].append(dict(ev, bytes=[], hex=[], ans=[], hdr=NOHDR))
                 break
             data = bytes(obj)
+            if disk:
+                with open(dpath, "rb") as fh:
+                    data = fh.read()
             hx = list(bytes.fromhex(obj.export_hex())) if kind in ("bloom", "cbloom") else []
             ans = [int(obj.check(k)) for k in real_keys]
             hdr = c_header(obj, tmpdir) if kind in ("bloom", "cbloom") and rnd.random() < 0.5 else NOHDR
@@ -224,8 +243,8 @@ def validate(traces, timeout=1200):
 
 def run(focus, tier, seed):
     total = Tally(focus)
-    kinds = ["bloom", "cbloom", "cms", "ebf", "rbf", "cko", "ccko", "cms", "bloom"]
-    ntr, nev, nb = (54, 12, 9) if tier == "quick" else (900, 18, 15)
+    kinds = ["bloom", "cbloom", "cms", "ebf", "rbf", "cko", "ccko", "cms", "disk", "cko", "ccko", "bloom"]
+    ntr, nev, nb = (72, 12, 12) if tier == "quick" else (960, 18, 16)
     traces = record(seed + 4242, ntr, nev, kinds)
     import concurrent.futures as cf
 
